@@ -52,6 +52,40 @@ func lineCol(src string, off int) (int, int) {
 	return line, off - last + 1
 }
 
+// knownHashCol: the recorded finding C18-1 is exact: the newline that ends a
+// # comment is counted as a line but not recorded as the start of the next
+// line, so a position on a later line is reported with the right line and with
+// the column measured from the last line start the lexer DID record. swallowed
+// holds the offsets of the newlines that end # comments (known from the
+// generator, not from the lexer). Only a report of exactly (true line, that
+// column) belongs to the finding; any other wrong position is a violation.
+func knownHashCol(src string, off int, swallowed []int) int {
+	sw := map[int]bool{}
+	for _, o := range swallowed {
+		sw[o] = true
+	}
+	last := 0
+	for i := 0; i < off && i < len(src); i++ {
+		if src[i] == '\n' && !sw[i] {
+			last = i + 1
+		}
+	}
+	return off - last + 1
+}
+
+// hashNewlines returns the offsets of the newlines that end the # comments of
+// a source assembled from generator pieces: a piece that starts with # and ends
+// with a newline contributes its final newline.
+func hashNewlines(pieces []string, starts []int) []int {
+	var out []int
+	for i, p := range pieces {
+		if strings.HasPrefix(p, "#") && strings.HasSuffix(p, "\n") {
+			out = append(out, starts[i]+len(p)-1)
+		}
+	}
+	return out
+}
+
 // afterHashComment reports whether the line before the one containing off ends
 // in a # comment (the known finding C18-1 is confined to such lines).
 func afterHashComment(src string, off int) bool {
@@ -66,7 +100,7 @@ func afterHashComment(src string, off int) bool {
 	return strings.Contains(pl, "#")
 }
 
-func c18CheckTokens(c *Ctx, src string, offs []int) {
+func c18CheckTokens(c *Ctx, src string, offs []int, swallowed []int) {
 	c.Begin(src)
 	var toks []parser.LexToken
 	if pk, pm := Guard(func() { toks = parser.LexToList("v", src) }); pk != "" {
@@ -89,7 +123,7 @@ func c18CheckTokens(c *Ctx, src string, offs []int) {
 		wl, wc := lineCol(src, offs[i])
 		if t.Pos != offs[i] || t.Lline != wl || t.Lpos != wc {
 			kind := "token"
-			if afterHashComment(src, offs[i]) {
+			if t.Pos == offs[i] && t.Lline == wl && t.Lpos != wc && t.Lpos == knownHashCol(src, offs[i], swallowed) {
 				kind = "token on the line after a # comment"
 			}
 			c.Viol("wrong-position: "+kind, fmt.Sprintf("source %q: token %d (%q) reported at offset %d line %d column %d, its first character is at offset %d line %d column %d",
@@ -101,13 +135,13 @@ func c18CheckTokens(c *Ctx, src string, offs []int) {
 }
 
 func c18Enumerate(c *Ctx, maxItems int, seps []string) {
-	var rec func(src string, offs []int, prev *c18Item)
-	rec = func(src string, offs []int, prev *c18Item) {
+	var rec func(src string, offs []int, prev *c18Item, swallowed []int)
+	rec = func(src string, offs []int, prev *c18Item, swallowed []int) {
 		if c.Stopped() {
 			return
 		}
 		if len(offs) > 0 && c.Mine() {
-			c18CheckTokens(c, src, offs)
+			c18CheckTokens(c, src, offs, swallowed)
 		}
 		if len(offs) == maxItems || (prev != nil && prev.last) {
 			return
@@ -127,22 +161,31 @@ func c18Enumerate(c *Ctx, maxItems int, seps []string) {
 						// fine: distinct symbols
 					}
 				}
-				rec(src+sep+it.text, append(append([]int{}, offs...), len(src)+len(sep)+it.off), it)
+				sw := swallowed
+				if strings.HasPrefix(it.text, "#") && strings.HasSuffix(it.text, "\n") {
+					sw = append(append([]int{}, swallowed...), len(src)+len(sep)+len(it.text)-1)
+				}
+				rec(src+sep+it.text, append(append([]int{}, offs...), len(src)+len(sep)+it.off), it, sw)
 			}
 		}
 	}
-	rec("", nil, nil)
+	rec("", nil, nil, nil)
 }
 
 // planted errors and statement separation
 var c18Fillers = []string{"a := 1", "b := \"s\"", "/* c */", "/* c\nd */", "# c\n", "x := r\"x\ny\"", "y := [1,\n2]", "z := \"é\""}
 
 func c18Planted(c *Ctx, maxFill int) {
-	var rec func(src string, n int)
-	rec = func(src string, n int) {
+	var rec func(src string, n int, swallowed []int)
+	rec = func(src string, n int, swallowed []int) {
 		if c.Stopped() {
 			return
 		}
+		// knownAt: the reported position is exactly what the recorded finding C18-1 predicts
+		knownAt := func(text string, off, line, pos, wl, wc int) bool {
+			return line == wl && pos != wc && pos == knownHashCol(text, off, swallowed)
+		}
+		_ = knownAt
 		if c.Mine() {
 			for _, sep := range []string{"\n", "\n  ", "\n\t"} {
 				// (a) stray closing parenthesis
@@ -159,7 +202,7 @@ func c18Planted(c *Ctx, maxFill int) {
 						c.Skip() // a different (earlier) error was reported
 					} else if pe.Line != wl || pe.Pos != wc {
 						k := "wrong-position: parser error"
-						if afterHashComment(bad, off) {
+						if knownAt(bad, off, pe.Line, pe.Pos, wl, wc) {
 							k += " on the line after a # comment"
 						}
 						c.Viol(k, fmt.Sprintf("source %q: parser error reported at line %d column %d, the stray ')' is at line %d column %d (%v)", bad, pe.Line, pe.Pos, wl, wc, pe), bad)
@@ -195,7 +238,7 @@ func c18Planted(c *Ctx, maxFill int) {
 					// the expression `q := 1 + "a"` spans columns wc .. wc+11 of line wl
 					if re.Line != wl || re.Pos < wc || re.Pos > wc+11 {
 						k := "wrong-position: runtime error"
-						if afterHashComment(rt, off) {
+						if kc := knownHashCol(rt, off, swallowed); re.Line == wl && kc != wc && re.Pos >= kc && re.Pos <= kc+11 {
 							k += " on the line after a # comment"
 						}
 						c.Viol(k, fmt.Sprintf("source %q: runtime error reported at line %d column %d, the failing expression is at line %d columns %d-%d (%v)", rt, re.Line, re.Pos, wl, wc, wc+11, re), rt)
@@ -231,7 +274,7 @@ func c18Planted(c *Ctx, maxFill int) {
 						c.Nontrivial()
 						if re.Line != wl || re.Pos != wc {
 							k := "wrong-position: raised error"
-							if afterHashComment(rsrc, off) {
+							if knownAt(rsrc, off, re.Line, re.Pos, wl, wc) {
 								k += " on the line after a # comment"
 							}
 							c.Viol(k, fmt.Sprintf("source %q: the error raised by raise(...) is reported at line %d column %d, the raise call is at line %d column %d", rsrc, re.Line, re.Pos, wl, wc), rsrc)
@@ -278,10 +321,14 @@ func c18Planted(c *Ctx, maxFill int) {
 			if s != "" && !strings.HasSuffix(s, "\n") {
 				s += "\n"
 			}
-			rec(s+f, n+1)
+			sw := swallowed
+			if strings.HasPrefix(f, "#") && strings.HasSuffix(f, "\n") {
+				sw = append(append([]int{}, swallowed...), len(s)+len(f)-1)
+			}
+			rec(s+f, n+1, sw)
 		}
 	}
-	rec("", 0)
+	rec("", 0, nil)
 }
 
 // c18Separation: "statement separation, which is decided from token lines, is
